@@ -134,8 +134,24 @@ def prop_lib_rewrite(case):
     diff = dump_diff(case, r0, r1)
     if diff:
         return Fail("rewritten input fills the structures differently", kind="layout-dependence",
-                    diff=dict(list(diff.items())[:8]), labels=case["labels"], text=case["variant"])
+                    cls=_layout_class(case, diff), diff=dict(list(diff.items())[:8]), labels=case["labels"],
+                    text=case["variant"])
     return None
+
+
+def _layout_class(case, diff):
+    """names the one layout dependence that has a known mechanism: in GM2Calc-type input tan(beta) is turned into
+    (vd, vu) when GM2CalcInput[3] is read, with alpha(MZ) as it is at that moment"""
+    if case["kind"] == "gm2calc" and diff and set(diff) <= {"vd", "vu", "TB"}:
+        return "gm2calc-tanbeta-order"
+    return "other"
+
+
+def _layout_class_cli(case, canon):
+    r0, r1 = parse(case["kind"], canon), parse(case["kind"], case["variant"])
+    if isinstance(r0, vx.Reply) and isinstance(r1, vx.Reply):
+        return _layout_class(case, dump_diff(case, r0, r1))
+    return "other"
 
 
 def physics_output(stdout):
@@ -172,15 +188,18 @@ def prop_cli_rewrite(case):
                         text=canon if which == "canonical" else case["variant"])
     if s0 != s1:
         return Fail("exit status depends on the layout", kind="layout-dependence", status=[s0, s1],
+                    cls=_layout_class_cli(case, canon),
                     labels=case["labels"], stderr=[e0[-300:], e1[-300:]], text=case["variant"])
     if fmt in (0, 1):
         if o0 != o1:
             return Fail("stdout depends on the layout", kind="layout-dependence", fmt=fmt,
+                        cls=_layout_class_cli(case, canon),
                         out=[o0[:400], o1[:400]], labels=case["labels"], text=case["variant"])
     else:
         b0, b1 = slha.output_blocks(o0), slha.output_blocks(o1)
         if b0 != b1:
             return Fail("SLHA output blocks depend on the layout", kind="layout-dependence", fmt=fmt,
+                        cls=_layout_class_cli(case, canon),
                         out=[b0, b1], labels=case["labels"], text=case["variant"])
         if s0 == 0:
             name, key = slha.OUTPUT_ENTRY[fmt]
@@ -279,11 +298,18 @@ def classes_corrupt(case):
 
 
 def known_match(entry, case, fail):
-    """known findings are keyed by the corruption class: match = {"corruption": [classes]} applies to cases in
-    which a damaged token was *accepted* (or refused with an undocumented error class); crashes never match"""
+    """known findings are keyed by a class, never by the sub-check as a whole:
+      match = {"corruption": [classes]}  a damaged token of that class was *accepted* (or refused with an
+                                         undocumented error class); crashes never match
+      match = {"layout": class}          a layout dependence whose difference is confined to that class
+                                         (see _layout_class), e.g. gm2calc-tanbeta-order"""
     m = entry.get("match", {})
+    if not isinstance(fail, Fail):
+        return False
+    if m.get("layout"):
+        return fail.detail.get("kind") == "layout-dependence" and fail.detail.get("cls") == m["layout"]
     cor = case.get("corruption")
-    if not cor or not isinstance(fail, Fail):
+    if not cor:
         return False
     if fail.detail.get("kind") not in ("accepted", "wrong-error-class"):
         return False
@@ -342,20 +368,20 @@ def subchecks(ctx):
                  rule="the shipped example inputs: their documented entries, rendered canonically, fill the same "
                       "structures as the files themselves and agree with the table (never counted as non-trivial)")]
             if shipped else []) + [
-        Sub("lib_rewrite", rewrite_case(), prop_lib_rewrite, {"quick": 130, "thorough": 5000},
-            nontrivial=nt_rw, classes=classes_rewrite,
+        Sub("lib_rewrite", rewrite_case(), prop_lib_rewrite, {"quick": 220, "thorough": 5000},
+            nontrivial=nt_rw, classes=classes_rewrite, known_match=known_match,
             rule="library level; non-trivial = chain with a decoy"),
-        Sub("cli_rewrite", rewrite_case(program=True), prop_cli_rewrite, {"quick": 35, "thorough": 1800},
-            nontrivial=nt_rw, classes=classes_rewrite,
+        Sub("cli_rewrite", rewrite_case(program=True), prop_cli_rewrite, {"quick": 60, "thorough": 1800},
+            nontrivial=nt_rw, classes=classes_rewrite, known_match=known_match,
             rule="program level (subprocess, file or stdin); non-trivial = chain with a decoy"),
-        Sub("corrupt_token", corruption_case(slha.corrupt_token), prop_corrupt, {"quick": 60, "thorough": 2500},
+        Sub("corrupt_token", corruption_case(slha.corrupt_token), prop_corrupt, {"quick": 110, "thorough": 2500},
             classes=classes_corrupt, known_match=known_match,
             rule="one key/value/Q token of a read block replaced (text, nan, inf, overflow, trailing characters, "
                  "Fortran D exponent, hex); library and program level"),
-        Sub("corrupt_missing", corruption_case(slha.corrupt_missing), prop_corrupt, {"quick": 12, "thorough": 400},
+        Sub("corrupt_missing", corruption_case(slha.corrupt_missing), prop_corrupt, {"quick": 20, "thorough": 400},
             classes=classes_corrupt, known_match=known_match,
             rule="value token of a read block removed, with / without a following comment"),
-        Sub("corrupt_config", corruption_case(slha.corrupt_config), prop_corrupt, {"quick": 15, "thorough": 500},
+        Sub("corrupt_config", corruption_case(slha.corrupt_config), prop_corrupt, {"quick": 25, "thorough": 500},
             classes=classes_corrupt, known_match=known_match,
             rule="numeric but undocumented value of a GM2CalcConfig entry"),
     ]
